@@ -75,7 +75,13 @@ CHAOS = ["none", "none", "clear_lru", "clear_sympy", "restart", "fresh_process"]
 FOLLOW = ["sin", "cos", "tan", "mul2", "mulself", "divself", "pow2", "sqrt", "addself", "subself", "addK", "diff", "ptp",
           "mulm", "to", "to", "to", "in_base", "in_base", "in_cgs", "in_mks", "eq_other", "add_other", "sub_other",
           "same_dims", "str", "unit_roundtrip", "convert", "neg", "cmp", "mean", "unit_mul", "unit_pow", "hash_eq",
-          "is_dimensionless", "base_equiv", "mul_unit_other", "concatenate", "setitem"]
+          "is_dimensionless", "base_equiv", "mul_unit_other", "concatenate", "setitem",
+          "to_other_units", "to_equiv", "arr_from_list", "stack", "dot", "where", "sort", "unit_div_other", "unit_eq_str",
+          "div_other", "clip"]
+EQUIVS = [("spectral", "Hz"), ("spectral", "erg"), ("thermal", "erg"), ("thermal", "K"), ("mass_energy", "g"),
+          ("mass_energy", "J"), ("lorentz", "dimensionless"), ("schwarzschild", "g"), ("compton", "cm"),
+          ("number_density", "cm**-3"), ("sound_speed", "K"), ("effective_temperature", "K"), ("electromagnetic_si", "T"),
+          ("nonexistent_equivalence", "m")]
 
 
 def _m():
@@ -319,6 +325,10 @@ def follow(fop, me, other):
         return me.reg.list_same_dimensions(u)
     if f == "mul_unit_other":
         return u * other.obj.units
+    if f == "unit_div_other":
+        return u / other.obj.units
+    if f == "unit_eq_str":
+        return [u == uo.Unit(str(other.obj.units), registry=me.reg), str(u) == str(other.obj.units)]
     if isunit:
         x = 2.0 * x  # arithmetic follow-ups on a Unit act on a quantity made from it
     if f == "sin":
@@ -382,6 +392,27 @@ def follow(fop, me, other):
         y = np.atleast_1d(x).copy()
         y[0] = np.atleast_1d(o)[0]
         return y
+    if f == "to_other_units":
+        # the OTHER lineage's unit object as the conversion target
+        return x.to(o.units)
+    if f == "to_equiv":
+        return x.to_equivalent(fop["u"], fop["equiv"])
+    if f == "arr_from_list":
+        return unyt.unyt_array([np.atleast_1d(x)[0], np.atleast_1d(o)[0]])
+    if f == "stack":
+        return np.stack([np.atleast_1d(x), np.atleast_1d(o)])
+    if f == "dot":
+        return np.dot(np.atleast_1d(x), np.atleast_1d(o))
+    if f == "where":
+        x1, o1 = np.atleast_1d(x), np.atleast_1d(o)
+        return np.where(np.asarray(x1.d).real > 0, x1, o1)
+    if f == "sort":
+        return [np.sort(np.atleast_1d(x)), np.argsort(np.atleast_1d(x))]
+    if f == "div_other":
+        return x / o
+    if f == "clip":
+        o1 = np.atleast_1d(o)
+        return np.clip(np.atleast_1d(x), o1.min(), o1.max())
     raise HarnessError(f"unknown follow-up {f}")
 
 
@@ -405,6 +436,8 @@ def run_follow(fop, me, other):
 # -------------------------------------------------------------- generator
 
 
+GEN2_ROUTES = ("pickle", "pickle", "deepcopy", "deepcopy_nested", "copy", "method_copy", "unitcopy", "unitcopy_deep", "json", "str",
+               "regdeepcopy")
 LATE_ROUTES = ("pickle", "pickle_nested", "deepcopy", "deepcopy_nested", "copy", "method_copy", "unitcopy", "unitcopy_deep")
 
 
@@ -545,6 +578,8 @@ def gen_run(r, cfg):
             fop["sys"] = r.choice(SYSTEMS)
         if f == "unit_pow":
             fop["p"] = r.choice([2, -1, 0.5, 3])
+        if f == "to_equiv":
+            fop["equiv"], fop["u"] = r.choice(EQUIVS)
         follows.append(fop)
     if late is not None and follows and r.random() < 0.6:
         # the object predates the last registry edit: convert it to ITS OWN spelling (resolved against the
@@ -580,6 +615,22 @@ def gen_run(r, cfg):
                 pf.append(fop)
             extra.append({"k": "post_edit", "edit": {"k": "modify", "sym": base, "value": r.choice([5.0, 0.2, 11.0])},
                           "follows": pf, "again": route in ("pickle", "pickle_nested", "json")})
+    if route != "savetxt" and rt["chaos"] not in ("fresh_process", "new_interpreter") and r.random() < cfg.get("p_gen2", 0.0):
+        # a second generation: the restored object is persisted and restored once more (pickle of an unpickled
+        # object, deep copy of a copy, JSON of a registry that came out of a pickle ...)
+        pool = list(GEN2_ROUTES)
+        if late is not None:
+            pool = [x for x in pool if x in LATE_ROUTES]   # text routes carry a name, not a value
+        if dtype.startswith(">"):
+            pool = [x for x in pool if x in ("copy", "method_copy", "deepcopy", "deepcopy_nested", "unitcopy", "unitcopy_deep")]
+        g2 = {"k": "gen2", "route": r.choice(pool)}
+        if g2["route"] == "pickle":
+            g2["proto"] = r.choice([2, 3, 4, 5])
+        g2["chaos"] = r.choice(["none", "none", "clear_lru", "clear_sympy"])
+        extra.append(g2)
+        for e in extra:
+            if e["k"] == "post_edit":
+                e["again"] = False   # "the same bytes restored twice" is about the first generation's payload
     return [{"k": "reg", **regop}, build] + ([late] if late else []) + extra + [rt] + follows
 
 
@@ -594,6 +645,7 @@ def make_config(rng):
         "p_late": r.choice([0.0, 0.15, 0.4]),
         "p_pre": r.choice([0.0, 0.3]),
         "p_post": r.choice([0.0, 0.25, 0.5]),
+        "p_gen2": r.choice([0.0, 0.0, 0.3, 0.6]),
         "p_newint": 0.3 if os.environ.get("UNYTSIM_TIER") == "thorough" else 0.04,
     }
 
@@ -799,6 +851,43 @@ class Sim11:
         if rw.compare(before, again):
             self.violate("O1-persisting-changed-original", {"route": rt, "differs": rw.compare(before, again)}, [route])
         probe_identity(self, obj, robj)
+        gen2 = next((o for o in ops if o["k"] == "gen2"), None)
+        if gen2 is not None:
+            # ---- second generation: persist the RESTORED object again, restore that; O1 against the original
+            g2rt = dict(gen2, k="roundtrip")
+            try:
+                payload2 = persist(robj, rreg, g2rt, None)
+                if gen2.get("chaos") == "clear_lru":
+                    seams.clear_lru()
+                elif gen2.get("chaos") == "clear_sympy":
+                    seams.clear_sympy_cache()
+                robj2, rreg2 = restore(payload2, robj, rreg, None)
+            except Exception as e:
+                if rw.harness_frame(e.__traceback__):
+                    raise
+                self.violate("O1-restore-raised", {"route": rt, "second_generation": gen2, "build": build,
+                                                   "exception": type(e).__name__},
+                             [route + ">" + gen2["route"], type(e).__name__])
+                return
+            self.fault("second_generation_" + gen2["route"])
+            self.shape = self.shape + ["gen2:" + gen2["route"]]
+            first_filled = getattr(self, "filled_in", None)
+            self.filled_in = None
+            after2 = o1_describe(robj2, rreg2)
+            self.check_o1(before, after2, g2rt, build, label=route + ">" + gen2["route"])
+            if getattr(self, "filled_in", None):
+                remove_filled_in(rreg2, self.filled_in)
+            self.filled_in = (self.filled_in or set()) | (first_filled or set()) or None
+            # the first generation must not have been changed by being persisted again
+            mid = o1_describe(robj, rreg)
+            dmid = [d for d in rw.compare({k: v for k, v in after.items() if k != "table"},
+                                          {k: v for k, v in mid.items() if k != "table"})]
+            if dmid:
+                self.violate("O1-persisting-changed-original", {"route": gen2, "generation": 2, "differs": dmid[:8]},
+                             [route + ">" + gen2["route"]])
+            robj, rreg, after = robj2, rreg2, after2
+            rest = Lineage(robj, rreg)
+            self.usys_names = (reg.unit_system.name, rreg.unit_system.name)
         outs = []
         for i, fop in enumerate(follows):
             self.step_no = 4 + i
@@ -820,7 +909,7 @@ class Sim11:
             ok = apply_edit(reg, post["edit"])
             if rreg.lut is not reg.lut:
                 ok = apply_edit(rreg, post["edit"]) and ok
-            sib = getattr(restore, "sibling", None) if route == "pickle_nested" else None
+            sib = getattr(restore, "sibling", None) if route == "pickle_nested" and gen2 is None else None
             if ok and sib is not None and sib.units.registry is not rreg:
                 # the sibling restored from the same payload has a registry of its own: the edit made through
                 # the first restored object's registry must not show in it
@@ -863,7 +952,7 @@ class Sim11:
                                               "edited in between"}, [route, ",".join(sorted(set(x.split(".")[-1] for x in d2)))[:60]])
         self.log.add({"o1": after, "follows": outs})
 
-    def check_o1(self, before, after, rt, build):
+    def check_o1(self, before, after, rt, build, label=None):
         b = {k: v for k, v in before.items() if k != "table"}
         a = {k: v for k, v in after.items() if k != "table"}
         # the registry a restored object lives in is its own: compare contents, not identity
@@ -871,7 +960,7 @@ class Sim11:
         self.count("o1")
         if diffs:
             self.violate("O1-object", {"route": rt, "build": build, "differs": diffs, "before": b, "after": a},
-                         [rt["route"], ",".join(sorted(set(d.split(".")[-1] for d in diffs)))])
+                         [label or rt["route"], ",".join(sorted(set(d.split(".")[-1] for d in diffs)))])
         tb, ta = before["table"], after["table"]
         kinds = {}
         for k in sorted(set(tb) | set(ta)):
@@ -894,7 +983,7 @@ class Sim11:
                 self.filled_in = set(kinds["extra"])
                 sig = ["persisted-table", "defaults-filled-in"]
             else:
-                sig = [route, ",".join(sorted(kinds))]
+                sig = [label or route, ",".join(sorted(kinds))]
             self.violate("O1-registry-contents",
                          {"route": rt, "differences": {k: v[:8] for k, v in kinds.items()},
                           "note": "restored registry does not hold the contents of the original at dump time"}, sig)
@@ -910,6 +999,10 @@ class Sim11:
             # names that exist only because of the (separately reported) fill-in
             rr = {"ok": {"k": "seq", "items": [i for i in rr["ok"]["items"] if i.get("v") not in self.filled_in]}}
         diffs = [d for d in rw.compare(o, rr, stats=tstats)]
+        if f == "to_other_units":
+            # the target is the other lineage's unit OBJECT: the result lives in the other lineage's registry on both
+            # sides, which the per-lineage labels (own / default / other) cannot express
+            diffs = [d for d in diffs if not d.endswith(".node")]
         if diffs and all(d.endswith((".dtype", ".data")) for d in diffs):
             # Same numbers at the narrower precision but another float width:
             # whether a conversion of float32 data returns float32 or float64
@@ -923,7 +1016,8 @@ class Sim11:
         self.stats["within_tol"] += tstats.get("within_tol", 0)
         if diffs:
             fields = sorted(set(d.split(".")[-1].split(":")[-1] for d in diffs))
-            if (f in ("in_base", "base_equiv") and fop.get("sys") is None and self.shape[0] in ("pickle", "pickle_nested", "json")
+            routes_used = {self.shape[0]} | {x[5:] for x in self.shape if str(x).startswith("gen2:")}
+            if (f in ("in_base", "base_equiv") and fop.get("sys") is None and routes_used & {"pickle", "pickle_nested", "json"}
                     and getattr(self, "usys_names", None) and self.usys_names[0] != self.usys_names[1]):
                 self.violate("O2-follow-up-differs",
                              {"follow_up": fop, "original": o, "restored": rr, "differs": diffs, "chaos": chaos,
